@@ -10,7 +10,9 @@
    [no_backend_error ev]: IsAuthoritative does not fail (otherwise dns.HandleFailed
    writes a bare SERVFAIL without OPT).  [badvers q]: the query's EDNS version is not 0.
    [wf_ecs e]: the option is one miekg/dns Unpack accepts (family 0 with source 0,
-   family 1 with source <= 32 and an IPv4 address, family 2 with source <= 128).
+   family 1 with source <= 32 and an IPv4 address, family 2 with source <= 128 and an
+   address below 2^128).  [wf_client c]: the IPNets the handler builds (address below 2^128
+   under a 128-bit mask, or an IPv4 address under a 32-bit mask).
    Lengths of declared subnets are in 128-bit terms (IPv4: 96 + length).
 
    'address unchanged': in the reply object the address is the query's address
@@ -79,10 +81,10 @@ Print Assumptions C10_wire_view.
        24 (family 1) / 48 (family 2)  if no declared subnet matches
    and the scope never exceeds 32 / 128 *)
 Theorem C10_scope_truthful : forall nets premask fm8 fmM gl,
-  (forall m c, exists r, gl m c = Ok r /\
+  (forall m c, wf_client c -> exists r, gl m c = Ok r /\
      hit_of r = lpm (nets m) (cfam c) (search_addr premask c) (eff_plen c)) ->
   forall ev q r e mo8 moM rip,
-  fm8 = Ok mo8 -> fmM = Ok moM -> q_rip q = Some rip ->
+  fm8 = Ok mo8 -> fmM = Ok moM -> q_rip q = Some rip -> rip < two128 ->
   badvers q = false -> no_backend_error ev ->
   query_ecs q = Some e -> wf_ecs e ->
   serve fm8 fmM gl ev q = Reply r ->
@@ -111,10 +113,10 @@ Print Assumptions C10_lpm_none.
    of the resolver address in the name's M map) when there is no ECS option, its
    family is not 1 or 2, the name has no '8' map, or no subnet with a location matches *)
 Theorem C10_fallback_to_resolver : forall nets premask fm8 fmM gl,
-  (forall m c, exists r, gl m c = Ok r /\
+  (forall m c, wf_client c -> exists r, gl m c = Ok r /\
      hit_of r = lpm (nets m) (cfam c) (search_addr premask c) (eff_plen c)) ->
   forall ev q r mo8 moM rip,
-  fm8 = Ok mo8 -> fmM = Ok moM -> q_rip q = Some rip ->
+  fm8 = Ok mo8 -> fmM = Ok moM -> q_rip q = Some rip -> rip < two128 ->
   badvers q = false -> no_backend_error ev ->
   (forall e, query_ecs q = Some e -> wf_ecs e) ->
   serve fm8 fmM gl ev q = Reply r ->
@@ -129,10 +131,10 @@ Print Assumptions C10_fallback_to_resolver.
 
 (* when the two lookups do not fail every query is answered *)
 Theorem C10_always_replies : forall nets premask fm8 fmM gl,
-  (forall m c, exists r, gl m c = Ok r /\
+  (forall m c, wf_client c -> exists r, gl m c = Ok r /\
      hit_of r = lpm (nets m) (cfam c) (search_addr premask c) (eff_plen c)) ->
   forall ev q mo8 moM rip,
-  fm8 = Ok mo8 -> fmM = Ok moM -> q_rip q = Some rip ->
+  fm8 = Ok mo8 -> fmM = Ok moM -> q_rip q = Some rip -> rip < two128 ->
   (forall e, query_ecs q = Some e -> wf_ecs e) ->
   exists r, serve fm8 fmM gl ev q = Reply r.
 Proof. exact always_replies. Qed.
@@ -166,7 +168,7 @@ Example C10_example : forall premask,
     Some (1, 24, 0, first_v4 + 167838208, (0, 1)) /\
   scope_loc (ex_serve premask (101, 49) (ex_query 0 0 5 first_v4)) =
     Some (0, 0, 0, first_v4, (0, 1)) /\
-  (forall m c, exists r, gl_lpm ex_nets premask m c = Ok r /\
+  (forall m c, wf_client c -> exists r, gl_lpm ex_nets premask m c = Ok r /\
      hit_of r = lpm (ex_nets m) (cfam c) (search_addr premask c) (eff_plen c)) /\
   wf_ecs (mkEcs 1 24 9 (first_v4 + 167838208)).
 Proof. exact ecs_example. Qed.
